@@ -35,7 +35,7 @@ info('C14',
      'time-dependent drivers (TimeDependentTEBD/ExpMPO/TwoSiteTDVP/SingleSiteTDVP), plus SingleSiteTDVPEngine and QRBasedTEBDEngine, verified from the real source, with the leaf updates '
      '(evolve_step, sweep, prepare_evolve) abstract and a ghost accumulator `performed`: '
      'trunc_err.eps == old + performed and evolved_time == old + N_steps*dt for every N_steps; a static frame obligation '
-     '(AST scan) shows no other function assigns self.trunc_err/self.evolved_time. TruncationError.__add__/copy/from_norm. 
+     '(AST scan) shows no other function assigns self.trunc_err/self.evolved_time. TruncationError.__add__/copy/from_norm. '
      '(3) reinit_model of TimeDependentHAlgorithm and of the two time-dependent TDVP drivers: the model is H(evolved_time) afterwards, cached '
      'propagators are invalidated, TDVP environments are rebuilt with the current model. '
      'B (bounded, not proof): engines against exact diagonalisation on 6 sites (order of convergence, charge, norm, energy, '
